@@ -14,9 +14,10 @@ VARIABLES routes,  \* set of [p, face, origin, cost, flags]
           st,      \* strategy choices: prefix -> strategy name
           cap,     \* CS capacity
           faces,   \* face id -> mtu   (faces that exist)
+          fattr,   \* face id -> [scope, schemes, uri, luri]: what a faces/query filter is matched against (fixed when the face is made)
           lh,      \* configuration: management also listens under /localhop/nfd
           ev
-vars == <<routes, nh, st, cap, faces, lh, ev>>
+vars == <<routes, nh, st, cap, faces, fattr, lh, ev>>
 Empty == [x \in {} |-> 0]
 Ext(fn, k, v) == [x \in DOMAIN fn \cup {k} |-> IF x = k THEN v ELSE fn[x]]
 Drop(fn, K)   == [x \in DOMAIN fn \ K |-> fn[x]]
@@ -25,6 +26,11 @@ Drop(fn, K)   == [x \in DOMAIN fn \ K |-> fn[x]]
 \*   mod, verb, hasParams, hasName, name, faceId (-1 absent), cost, origin, flags (-1 absent),
 \*   flagsMask \in {"none", "both", "flags", "mask"} (faces/update), verb = "" for a name too short to carry a verb
 \*   strat \in {"", "ok", "bare", "unknown", "badver", "alien", "empty"}, stratName, capacity (-1 absent; -2: not representable), mtu (-1 absent)
+\*   exp (rib/register: ExpirationPeriod in ms, -1 absent)
+\*   create (faces/create): "" for other verbs, else the class of the request: "nouri" (no Uri), "smallmtu" (an MTU that cannot carry a packet),
+\*     "baduri" (a Uri that cannot be canonized), "flagsonly" (Flags without Mask), "conflict" (the remote Uri of an existing face),
+\*     "multicast" (not a unicast address), "ondemand" (a persistency a created face cannot have), "scheme" (a scheme faces cannot be created for),
+\*     "ok" (a socket is opened: the new face's id and MTU are observables newId / newMtu; not driven by the harness, see DESIGN 9)
 Authorised(c) == \/ (c.pfx = "localhost" /\ c.local)
                  \/ (c.mod = "rib" /\ c.pfx = "localhop" /\ lh)
 EffFace(c) == IF c.faceId <= 0 THEN c.inface ELSE c.faceId
@@ -32,7 +38,7 @@ Known(c) == \/ (c.mod = "rib" /\ c.verb \in {"register", "unregister"})
             \/ (c.mod = "fib" /\ c.verb \in {"add-nexthop", "remove-nexthop"})
             \/ (c.mod = "strategy-choice" /\ c.verb \in {"set", "unset"})
             \/ (c.mod = "cs" /\ c.verb = "config")
-            \/ (c.mod = "faces" /\ c.verb \in {"update", "destroy"})
+            \/ (c.mod = "faces" /\ c.verb \in {"update", "destroy", "create"})
 \* parameters that are missing, malformed or out of range: must be answered 4xx and change nothing
 Malformed(c) ==
   \/ ~c.hasParams
@@ -45,6 +51,7 @@ Malformed(c) ==
   \/ (c.mod = "faces" /\ c.verb = "update" /\ EffFace(c) \notin DOMAIN faces)
   \/ (c.mod = "faces" /\ c.verb = "update" /\ c.mtu >= 0 /\ c.mtu < 1)          \* an MTU that cannot carry any fragment
   \/ (c.mod = "faces" /\ c.verb = "update" /\ c.flagsMask \in {"flags", "mask"})      \* Flags and Mask come together or not at all
+  \/ (c.mod = "faces" /\ c.verb = "create" /\ c.create # "ok")                    \* every refusal class of faces/create
   \/ (c.mod = "faces" /\ c.verb = "destroy" /\ c.faceId < 0)                    \* destroy names its face explicitly (one that is gone already is fine)
 \* an MTU between 1 and MinMtu-1 may be refused or accepted (DESIGN 4.0); MinMtu and above must be accepted
 MayRefuse(c) == c.mod = "faces" /\ c.verb = "update" /\ c.mtu >= 1 /\ c.mtu < MinMtu
@@ -54,7 +61,7 @@ Apply(c) ==
   CASE c.verb = "register" ->
          /\ routes' = { r \in routes : ~(r.p = c.name /\ r.face = g /\ r.origin = (IF c.origin < 0 THEN 0 ELSE c.origin)) }
                       \cup {[p |-> c.name, face |-> g, origin |-> IF c.origin < 0 THEN 0 ELSE c.origin,
-                             cost |-> IF c.cost < 0 THEN 0 ELSE c.cost, flags |-> IF c.flags < 0 THEN 1 ELSE c.flags]}
+                             cost |-> IF c.cost < 0 THEN 0 ELSE c.cost, flags |-> IF c.flags < 0 THEN 1 ELSE c.flags, exp |-> c.exp]}
          /\ UNCHANGED <<nh, st, cap, faces>>
     [] c.verb = "unregister" ->
          /\ routes' = { r \in routes : ~(r.p = c.name /\ r.face = g /\ r.origin = (IF c.origin < 0 THEN 0 ELSE c.origin)) }
@@ -71,12 +78,14 @@ Apply(c) ==
     [] c.verb = "destroy" -> \* the face leaves the face table and, as for any face that goes down, its routes leave the RIB
          /\ faces' = Drop(faces, {c.faceId}) /\ routes' = { r \in routes : r.face # c.faceId }
          /\ UNCHANGED <<nh, st, cap>>
+    [] c.verb = "create" -> faces' = Ext(faces, c.newId, c.newMtu) /\ UNCHANGED <<routes, nh, st, cap>>
     [] c.verb = "update" -> faces' = (IF c.mtu >= 0 THEN [faces EXCEPT ![g] = IF c.mtu > 8800 THEN 8800 ELSE c.mtu] ELSE faces)
                             /\ UNCHANGED <<routes, nh, st, cap>>
 \* accepted: whether the command took effect (for MayRefuse commands the observed status decides)
 Command(c, accepted) ==
   /\ ev' = [c |-> c, accepted |-> accepted] /\ lh' = lh
   /\ IF accepted THEN Apply(c) ELSE UNCHANGED <<routes, nh, st, cap, faces>>
+  /\ fattr' = [f \in DOMAIN fattr \cap DOMAIN faces' |-> fattr[f]]
 \* ---- C17 rules on the observed response (o.status) ------------------------------------------------
 StatusOK(c, status) ==
   /\ status # "CRASH"
@@ -89,6 +98,13 @@ StatusOK(c, status) ==
 MustAccept(c) == Accepts(c) /\ ~MayRefuse(c)
 \* authorisation invariant: state changes only through authorised commands
 P_C17auth == [][(routes' # routes \/ nh' # nh \/ st' # st \/ cap' # cap \/ faces' # faces) => Authorised(ev'.c)]_vars
-RouteSet(s) == { [p |-> s[x].p, face |-> s[x].face, origin |-> s[x].origin, cost |-> s[x].cost, flags |-> s[x].flags] : x \in 1..Len(s) }
+RouteSet(s) == { [p |-> s[x].p, face |-> s[x].face, origin |-> s[x].origin, cost |-> s[x].cost, flags |-> s[x].flags, exp |-> s[x].exp] : x \in 1..Len(s) }
+\* ---- faces/query: the dataset lists exactly the faces the filter matches (q: [faceId, scheme, scope, uri, luri], -1 / "" = not given) ----
+Matches(f, q) == /\ (q.faceId >= 0 => q.faceId = f)
+                 /\ (q.scheme # "" => q.scheme \in fattr[f].schemes)
+                 /\ (q.scope >= 0 => q.scope = fattr[f].scope)
+                 /\ (q.uri # "" => q.uri = fattr[f].uri)
+                 /\ (q.luri # "" => q.luri = fattr[f].luri)
+QueryAnswer(q) == { f \in DOMAIN faces \cap DOMAIN fattr : Matches(f, q) }
 StratMap(s) == [p \in { s[x].p : x \in 1..Len(s) } |-> s[CHOOSE x \in 1..Len(s) : s[x].p = p].s]
 =============================================================================
